@@ -130,6 +130,20 @@ var bubbleDeadlocks int
 // RunOnce executes one scenario under one schedule inside a fresh synctest bubble.
 func RunOnce(t *testing.T, fam *Family, sc *Scn, sched *SchedSpec, trace bool) *RunResult {
 	res := &RunResult{}
+	var envRef *Env
+	defer func() {
+		// work the family postponed until after the bubble (Env.After)
+		if envRef == nil || len(envRef.after) == 0 || res.HarnessErr != "" {
+			return
+		}
+		for _, f := range envRef.after {
+			f()
+		}
+		res.Viols = envRef.Viols
+		res.Probes = envRef.Probes
+		res.LogHash = envRef.K.LogHash
+		res.Trace = envRef.K.TraceLog
+	}()
 	func() {
 		defer func() {
 			if r := recover(); r != nil {
@@ -169,6 +183,7 @@ func RunOnce(t *testing.T, fam *Family, sc *Scn, sched *SchedSpec, trace bool) *
 			}
 			k := simrt.New(cfg, epoch)
 			env := newEnv(k, sc)
+			envRef = env
 			restore := env.installHooks()
 			defer restore()
 			k.Run(func() { fam.Run(env) })
